@@ -26,7 +26,20 @@ LOOKUP = ("infallible", "map lookup with a key taken from that map's own key set
 RULES = [
     # ---- formatted writes into a String ----------------------------------------------------------------------
     (r".", r".", r"unwrap_used", r"^write(ln)?!\s*\(", WRITE),
-    # ---- known findings -----------------------------------------------------------------------------------------
+    # ---- sites repaired by the nine fix commits (ac203f2 … ae62ac0): now covered by totality theorems about `…Cur` -------
+    (r"acronym\.rs", r"^find_longest_match$", r"string_slice", r"text\[start_pos\.\.end\]",
+     ("theorem:findLongestMatch_total", "with the `!bytes[i].is_ascii()` break, end is one past an ASCII byte: a boundary")),
+    (r"apply\.rs", r"^apply_content_edits_with_content$", r"regex::replace_range", r".",
+     ("theorem:applyEdits_never_panics", "behind `modified.get(*start..*end).is_none()` -> Err")),
+    (r"case_constraints\.rs", r"^has_consecutive_uppercase$", r"indexing_slicing", r"chars\[start\.\.start \+ len\]",
+     ("theorem:upperRun_total", "len <= sequence_len = i - start")),
+    (r"pattern\.rs", r"^is_boundary$", r"indexing_slicing", r"^bytes\[start\]$",
+     ("theorem:matcher_no_panic", "needs a non-empty match: the variant map has no empty key (variantMap_has_no_empty_key)")),
+    (r"scanner\.rs", r"^generate_hunks$", r"string_slice", r"line_string\[\.\.match_col\]",
+     ("theorem:lineAfter_total", "inside `if let Some(rest) = line_string.get(match_col..)`: match_col is a boundary <= len")),
+    (r"preview/diff\.rs", r"^render_diff$", r"regex::replace_range", r".",
+     ("theorem:diffStep_total", "behind `after_line.get(col..).is_some_and(.. starts_with(&hunk.content))`")),
+    # ---- shapes before the fixes (kept so that a reverted fix is recognised, not taken for new code) ---------------
     (r"scanner\.rs", r"^generate_hunks$", r"string_slice", r"line_string\[(match_col|\.\.match_col)",
      ("known-finding:lossy_column", "raw-line byte column applied to the lossily decoded line; safe under the hypotheses of lineAfter_no_panic_valid_utf8")),
     (r"ambiguity/resolver\.rs", r"^try_(language_heuristics|cross_file_context)$", r"string_slice", r"line\[\.\.match_pos\]",
@@ -162,13 +175,15 @@ def classify(site):
 
 
 def main(argv):
-    repos, write = [], False
+    repos, write, refresh = [], False, False
     i = 0
     while i < len(argv):
         if argv[i] == "--repo":
             repos.append(argv[i + 1]); i += 1
         elif argv[i] == "--write":
             write = True
+        elif argv[i] == "--refresh":
+            refresh = True       # re-apply the rule table to entries that are `known-finding:*` or `unclassified`
         i += 1
     repos = repos or [common.REPO]
     from translate import panic_sites
@@ -186,7 +201,8 @@ def main(argv):
         sites, mode = panic_sites.inventory(repo)
         print(f"{repo}: {len(sites)} sites ({mode})")
         for s in sites:
-            if s["key"] in cls["sites"]:
+            old = cls["sites"].get(s["key"])
+            if old is not None and not (refresh and old["class"].split(":")[0] in ("known-finding", "unclassified")):
                 continue
             c, why = classify(s)
             cls["sites"][s["key"]] = {"class": c, "reason": why, "file": s["file"], "fn": s["fn"], "lint": s["lint"], "expr": s["expr"][:120]}
